@@ -68,24 +68,63 @@ def effects_of(A: ActionAnalysis, c: ClassInfo) -> tuple[set[str], list]:
     return eff, orders
 
 
+def _isinstance_names(P: Program, upd, test: ast.expr, action: str) -> set[str] | None:
+    """class names of `isinstance(action, X)` / `isinstance(action, (X, Y))`, else None"""
+    if isinstance(test, ast.Call) and call_name(test) == "isinstance" and len(test.args) == 2 and isinstance(test.args[0], ast.Name) and test.args[0].id == action:
+        t = test.args[1]
+        out = set()
+        for x in (t.elts if isinstance(t, ast.Tuple) else [t]):
+            q = P.resolve_expr_name(upd.module, x)
+            if q in P.classes:
+                out.add(P.classes[q].name)
+                out |= {c.name for c in P.subclasses(P.classes[q].name)}
+        return out
+    return None
+
+
 def handled_by(P: Program, a: ClassInfo) -> set[str] | None:
-    """Primitive class names the annotator's update() reacts to; None = all."""
+    """Primitive class names that get past the type filters of the annotator's update();
+    None = no type filter at all."""
     upd = a.methods.get("update")
     if upd is None:
         return set()
     action = upd.params[1] if len(upd.params) > 1 else None
-    names: set[str] = set()
+    prims = {c.name for c in P.primitives()}
+    alive = set(prims)
     found = False
-    for n in ast.walk(upd.node):
-        if isinstance(n, ast.Call) and call_name(n) == "isinstance" and len(n.args) == 2:
-            if isinstance(n.args[0], ast.Name) and n.args[0].id == action:
+    for s in upd.node.body:
+        if not isinstance(s, ast.If):
+            continue
+        # early exit:  if not isinstance(action, T): return
+        t = s.test
+        if isinstance(t, ast.UnaryOp) and isinstance(t.op, ast.Not):
+            names = _isinstance_names(P, upd, t.operand, action)
+            if names is not None and len(s.body) == 1 and isinstance(s.body[0], ast.Return) and not s.orelse:
                 found = True
-                t = n.args[1]
-                for x in (t.elts if isinstance(t, ast.Tuple) else [t]):
-                    q = P.resolve_expr_name(upd.module, x)
-                    if q in P.classes:
-                        names.add(P.classes[q].name)
-    return names if found else None
+                alive &= names
+                continue
+        # dispatch chain: if isinstance(..): .. elif isinstance(..): ..  [else: return]
+        chain, cur, names_all, pure = [], s, set(), True
+        while True:
+            names = _isinstance_names(P, upd, cur.test, action)
+            if names is None:
+                pure = False
+                break
+            does_something = not all(isinstance(x, ast.Pass) for x in cur.body) or True
+            names_all |= names
+            if len(cur.orelse) == 1 and isinstance(cur.orelse[0], ast.If):
+                cur = cur.orelse[0]
+                continue
+            tail = cur.orelse
+            break
+        if pure and names_all:
+            found = True
+            tail_returns = bool(tail) and isinstance(tail[-1], ast.Return)
+            # a chain whose branches do the work (no else), or whose else returns: only named classes are handled
+            last_stmt = s is upd.node.body[-1]
+            if tail_returns or (not tail and last_stmt):
+                alive &= names_all
+    return alive if found else None
 
 
 def matrix(P: Program, A: ActionAnalysis):
